@@ -109,7 +109,6 @@ func init() {
 			}
 			return one(st, TV{SSeqI, x.freshBytes(st, "path")})
 		})
-	simple("bytes.Trim", "bytes.Trim: total; result is a sub-slice of the input")
 	ext("os.IsNotExist", "os.IsNotExist(err): err is (or wraps through a path error) fs.ErrNotExist: class test in the error model",
 		func(x *Exec, st *State, fr *Frame, cc *ssa.CallCommon, args []Val, instr ssa.Instruction) []Outcome {
 			if e, ok := args[0].(ErrV); ok {
@@ -131,7 +130,6 @@ func init() {
 	simple("github.com/spf13/afero.NewMemMapFs", "afero.NewMemMapFs: a non-nil in-memory filesystem", optNonNil)
 	simple("github.com/spf13/afero.NewOsFs", "afero.NewOsFs: a non-nil filesystem", optNonNil)
 	simple("golang.org/x/text/encoding/unicode.UTF16", "unicode.UTF16: a non-nil encoding", optNonNil)
-	simple("golang.org/x/text/transform.NewReader", "transform.NewReader: a non-nil reader (its output is not modelled: any byte string)", optNonNil)
 	simple("golang.org/x/sys/unix.IoctlGetInt", "ioctl wrapper: value or error")
 	simple("golang.org/x/sys/unix.IoctlSetPointerInt", "ioctl wrapper: nil or error")
 	simple("encoding/pem.Encode", "pem.Encode: writes to the writer; nil or the writer's error", optHavoc)
